@@ -5,27 +5,27 @@ props=[json.loads(l) for l in open('/verif/properties.jsonl')]
 T={
  "C01":("exploration","runtime monitoring: per-tx pool probe (big.Int share-value and constant-product oracles) on directed hostile workloads (incl. rolled-back authority updates of the fee) + pure-function probe of the price formulas"),
  "C02":("exploration","runtime monitoring: complete bank balance-sheet probe before/after every tx against an expected-delta reference model"),
- "C03":("exploration","runtime monitoring: per-tx and begin-block HTLC probe against a contract state machine with independently computed ids/hash locks, per-contract escrow ledger, expiry-queue walk; hostile claims/duplicates"),
+ "C03":("exploration","runtime monitoring: per-tx and begin-block HTLC probe against a contract state machine with independently computed ids/hash locks, per-contract escrow ledger, expiry-queue walk; hostile claims/duplicates; every refusal of the preimage of an open contract is judged; contracts and cross-chain transfers born in genesis; recipients in either bech32 spelling"),
  "C04":("exploration","runtime monitoring: escrow and asset-supply counters against sums over open contracts (chain list and model), tumbling-window model of the time-based limit, at every tx and block boundary; assets deactivated and taken off the parameter list while transfers of them are in flight"),
  "C05":("exploration","runtime monitoring: per-tx/per-block farm sums plus a what-if full-withdrawal probe on a dropped branch after every block (every farmer alone, all in random order, partial amounts); real withdrawal epilogue"),
  "C06":("exploration","runtime monitoring: exact rational (big.Rat) MasterChef reference model driven by the same history, budget identity, refund-exactly-once ledger, twin histories differing only in harvest frequency"),
  "C07":("exploration","runtime monitoring: deposit/request escrow and earned-fee tallies against a request/earnings ledger at every tx and around the service end-block; full balance sheet per tx"),
  "C08":("exploration","runtime monitoring: request/context/batch schedule model, harness callback module recording every callback, raw queue walks after every block, hostile responders and strangers"),
- "C09":("exploration","runtime monitoring: per-tx token registry/ledger probe (records, indexes, burn tally, bank supply, full balance sheet incl. module account) against a reference registry; hostile non-owners and re-issues, crafted owner addresses that splice the (owner, symbol) index key"),
+ "C09":("exploration","runtime monitoring: per-tx token registry/ledger probe (records, indexes, burn tally, bank supply, full balance sheet incl. module account) against a reference registry; hostile non-owners and re-issues, crafted owner addresses that splice the (owner, symbol) index key; chains born with 130 more tokens and the TotalBurn query compared with the sum of burns after every block"),
  "C10":("exploration","runtime monitoring: pure-function probe of LossLessSwap in exact integers over all 361 scale pairs; per-tx bank + harness-EVM ledger probes around ERC20 conversions with injected EVM faults (errors, reverts, no effect, off by one, off by a 64-bit word, wrong holder, lying balanceOf), fee-token swaps via a registry-configured keeper, EVM->native hook"),
  "C11":("fault_enumeration","runtime monitoring by differential replicas: a journaled all-modules history re-executed in separate processes (later wall-clock, on-disk DB with application close/reopen at block boundaries (every k-th block and after every block carrying a parameter update) incl. across process exit, other GOMAXPROCS/GOGC), byte comparison of app hashes, per-store KV digests, tx results and repeated genesis exports; host-clock straddle probes; -race build with concurrent query/simulate/checktx storm in the thorough tier"),
- "C12":("exploration","runtime monitoring by differential applications: checkpoints of the all-modules history are exported and re-imported into fresh applications (full as-is, per-module isolated, zero-height after the modules' preparation steps); acceptance, export fixpoint per module section and byte comparison of a fixed list of gRPC queries routed on both applications at equal height/time; behavioural differential: a battery of ordinary messages derived from the exported state is carried out on dropped branches of the source and of the imported state and every outcome and every query afterwards is compared; raw walks of the restored time queues and secondary indexes"),
+ "C12":("exploration","runtime monitoring by differential applications: checkpoints of the all-modules history are exported and re-imported into fresh applications (full as-is, per-module isolated, the random section alone, zero-height after the modules' preparation steps); acceptance, export fixpoint per module section and byte comparison of a fixed list of gRPC queries routed on both applications at equal height/time; behavioural differential: a battery of ordinary messages derived from the exported state is carried out on dropped branches of the source and of the imported state and every outcome and every query afterwards is compared; raw walks of the restored time queues and secondary indexes"),
  "C13":("exploration","runtime monitoring: the application's begin/end blockers run inside recover() wrappers on the all-modules chain (all workloads incl. parameter changes, bursts of 100+ items due at one height, time steps from 1 s to days, initial heights placed before the carry boundaries of the height-keyed queues); raw walks of the four time-queue families against the object stores after every block, and of the farm queue after every transaction (pools destroyed in the block they fall due); four more cases per tier run the dedicated service / htlc / farm / random directors (scripted kills, restarts, coincident expiries) and keep their queue-and-due-height relations only"),
  "C14":("exploration","runtime monitoring: per-tx NFT state probe (all classes, tokens, owners, supplies, owner listings via the module's queries) against a reference ownership map, hostile actors"),
- "C15":("exploration","runtime monitoring: per-tx MT state probe incl. raw balance-store walk against an arbitrary-precision reference ledger, boundary/overflow amounts"),
+ "C15":("exploration","runtime monitoring: per-tx MT state probe incl. raw balance-store walk against an arbitrary-precision reference ledger, boundary/overflow amounts; genesis battery (balances and supplies that agree, disagree, or agree only modulo 2^64)"),
  "C20":("exploration","runtime monitoring of the two generated code families in one process: exhaustive registry/descriptor walk (gogoproto registry vs protobuf-go registry, every .proto under proto/irismod, every Msg signer via the application's signing context) + descriptor-driven cross-family byte round trips; thorough tier under the checkptr sanitizer"),
- "C16":("exploration","runtime monitoring: reflection-generated boundary parameter sets judged by the module's own Validate(), applied through the authority handler on dropped branches of a prepared all-modules chain, differential battery of every message type incl. a pool-opening liquidity addition (stored params vs candidate) and begin/end blockers under recover(); genesis path on fresh applications; real txs for the authority clause incl. one real governance proposal"),
+ "C16":("exploration","runtime monitoring: reflection-generated boundary parameter sets judged by the module's own Validate(), applied through the authority handler on dropped branches of a prepared all-modules chain, differential battery of every message type incl. a pool-opening liquidity addition (stored params vs candidate) and begin/end blockers under recover(); genesis path on fresh applications; real txs for the authority clause incl. one real governance proposal and the authority's own update rolled back by the next message"),
  "C17":("exploration","runtime monitoring: per-tx/per-end-block feed probe (value list, state index, request context) against a reference that appends one exact-rational aggregate per completed batch, hostile providers and strangers"),
  "C18":("exploration","runtime monitoring: per-block due-height model over the raw result keys (write-once), pending queue and oracle-request records; value format/PRNG re-derivation from observed chain data; pure PRNG probe; chains started just below the 2^8/2^16/2^24/2^32 height boundaries"),
- "C19":("exploration","runtime monitoring: response-id uniqueness monitor (records born in genesis count as creations), query read-back of every id (per block, periodic, final) and block-to-block raw store diff (append-only)"),
+ "C19":("exploration","runtime monitoring: response-id uniqueness monitor (records born in genesis count as creations), read-back of every id through the application's query service (per block, periodic, final), look-ups of simulated ids before their creation, and block-to-block raw store diff (append-only)"),
 }
 NA={}
-FIXES=["625d429 0183829 (C16 farm/token params validation)","3207d3e ff58504 (C12 farm queue on import, token genesis validation)","65bfa74 (C12 crisis genesis order)","45bb3a0 (C09 EditToken)","1a3d839 007a7e9 (C10 LossLessSwap, swap target)","9199708 (C04 HTLC to escrow)","da70e52 (C12 HTLC timestamp 0 genesis)","3e7d2da (C12 oracle import history)","1df21f2 (C05 farm debt rounding)","59c32e3 (C06 farm AdjustPool)","8b62807 d0b1358 d156cb8 (C07 service fees)","834e3f7 92557ec (C08 service schedule)","5aec873 (C11 MT export order)","b770505 (C11 oracle host clock)","82dca39 (C02 double-hop swap settlement)","4b78834 (C17 oracle Max of all-negative responses)","c092f06 (C17 oracle Avg overflow)"]
+FIXES=["625d429 0183829 (C16 farm/token params validation)","3207d3e ff58504 (C12 farm queue on import, token genesis validation)","65bfa74 (C12 crisis genesis order)","45bb3a0 (C09 EditToken)","1a3d839 007a7e9 (C10 LossLessSwap, swap target)","9199708 (C04 HTLC to escrow)","da70e52 (C12 HTLC timestamp 0 genesis)","3e7d2da (C12 oracle import history)","1df21f2 (C05 farm debt rounding)","59c32e3 (C06 farm AdjustPool)","8b62807 d0b1358 d156cb8 (C07 service fees)","834e3f7 92557ec (C08 service schedule)","5aec873 (C11 MT export order)","b770505 (C11 oracle host clock)","82dca39 (C02 double-hop swap settlement)","4b78834 (C17 oracle Max of all-negative responses)","c092f06 (C17 oracle Avg overflow)","83c45a0 (C16 coinswap pool creation fee denom)","3ba0ba4 (C03 htlc blocked recipient spelling)","99c804a (C06 farm AdjustPool list order)","5d088f0 (C12 nft transfer uri length)"]
 checks=[]
 for p in props:
     i=p['id']
